@@ -61,6 +61,63 @@ check("C16", "model_checking",
       "bound 2 (unbounded free switches), deviation bound 3, and with no bound at all for n <= 2 (quick) / 3 (thorough)",
       SCHED_NOTE, "explicit-state BFS + stateless model checking (preemption-bounded and unbounded)", "E1 vsched + E2 seqx", "DESIGN.md C16")
 
+ENUM_NOTE = ("trusted: g++/clang, ASan/UBSan, the generated reflection (clang AST of File.h), the hand-written selector table and the "
+             "argument that non-selector scalars are copied opaquely (small fill-pattern alphabet)")
+check("C01", "model_checking",
+      "bounded-exhaustive enumeration: every object of the universe U (8.8k objects: every class x selector values x payload lengths x "
+      "fill patterns) alone and all sequences of length <= 2 (3 on a sub-grid) over a 14-object alphabet, written and read back through "
+      "File for levels 0..9 x 18 container sizes x restore points on/off, each session under the scheduler's default schedule; objects "
+      "read back are compared field by field (generated reflection) with the codec-level decode; plus the codec round trip on all of U",
+      ENUM_NOTE, "small-scope exhaustive enumeration with a differential/reflection oracle", "E3 enum", "DESIGN.md C01")
+check("C02", "model_checking",
+      "all 517 object images of the reference logs and raw-object samples (114 types) and every derived image (every byte in "
+      "[16,objectSize) x 8 boundary values / all 255 values, every aligned 2/4/8-byte group x 5 patterns) that still decodes completely "
+      "with the same shape: decode->encode must reproduce it, recomputed fields excepted; under ASan+UBSan",
+      ENUM_NOTE + "; the independent Python decoder cuts the images", "exhaustive enumeration of single-field mutations of reference images", "E3 enum", "DESIGN.md C02")
+check("C03", "model_checking",
+      "framing oracle on every object of U with a tracing in-memory stream (layout map): headerSize vs header bytes, objectSize vs emitted, "
+      "padding rule by type (set computed from the reference logs by the independent decoder), every length field vs payload emitted, "
+      "decoding consumes exactly the emitted bytes; ASan+UBSan (no read outside the caller's containers)",
+      ENUM_NOTE, "small-scope exhaustive enumeration with a layout-map oracle", "E3 enum", "DESIGN.md C03")
+check("C04", "model_checking",
+      "files written through File over the sequence x configuration grid (9.6k quick) are parsed by an independent stdlib-only Python "
+      "decoder that checks every clause of the container format and compares the concatenated payload with the objects' encodings",
+      "trusted: CPython struct/zlib; the reading of '4-byte alignment' as the format's objectSize%4 padding rule", "exhaustive enumeration + independent decoder (differential)", "E3 enum + blfpy", "DESIGN.md C04")
+check("C05", "model_checking",
+      "header on disk vs an independent recomputation from the container walk for the grid x 5 caller-supplied header patterns; every "
+      "written file and all 170 reference logs read completely through File and the reader's counters compared with the header",
+      "trusted: CPython struct/zlib", "exhaustive enumeration + independent recomputation", "E3 enum + blfpy", "DESIGN.md C05")
+check("C08", "fault_enumeration",
+      "every truncation offset of seed files for levels {0,1,6,9} x container sizes {32,100,default} x final/initial header x static "
+      "priority orders, each prefix read through File under the scheduler (ASan+UBSan); oracle from the container layout with the "
+      "padding ambiguity resolved permissively; monotonicity across offsets",
+      "seed files are the reference assembly, shown byte-identical to the library's output by C01/C04/C07", "exhaustive crash-point enumeration", "E4 fault", "DESIGN.md C08")
+check("C09", "model_checking",
+      "all filler strings over {L,O,B,J,x} without the signature up to length 7/9 at every inter-object position, split into two "
+      "containers at every offset (fillers <= 3/4), unknown type codes x declared sizes x positions; the real decoding stage is driven "
+      "on a File whose stream the harness filled, a sample as complete File sessions",
+      "the resynchroniser distinguishes only the five symbols (4-byte window)", "exhaustive enumeration over a reduced alphabet", "E3 enum", "DESIGN.md C09")
+check("C10", "fault_enumeration",
+      "complete mutation sets M1-M6 (byte and word substitutions, truncations, block deletion/duplication, the same on the re-packed "
+      "uncompressed stream, all length/size/selector fields and pairs) of five seed files holding an object of every class plus "
+      "reference logs: 384k members (quick), each read through File under the scheduler with ASan+UBSan and a 256 MiB allocation cap",
+      "sanitizers as oracle; deadlock/livelock exact under the scheduler; watchdog for CPU loops", "exhaustive fault enumeration (finite mutation sets)", "E4 fault", "DESIGN.md C10")
+check("C13", "model_checking",
+      "all call histories of a session grammar (length <= 12; 2.9k quick / 5.5k thorough) on files of {0,1,3,11,50} objects under the default "
+      "schedule and the 6 static priority orders, abandonment histories with every single deviation (pairs on the short ones), a sub-grid "
+      "under ASan; oracle: reference session machine for is_open/good/eof, counting destructors, live-allocation count, threads joined",
+      SCHED_NOTE, "explicit enumeration of operation histories x stateless schedule exploration", "E1 vsched + E2", "DESIGN.md C13")
+check("C14", "model_checking",
+      "file bytes identical across 5 heap poison patterns (24k sessions each), the same session twice in one process, across all schedules "
+      "with one deviation of write sessions ending on/off container boundaries, encodings identical across g++ / clang auto-init-zero / "
+      "auto-init-pattern builds, filler bytes zero in every encoding of U",
+      ENUM_NOTE, "exhaustive enumeration with differential comparison across environments", "E3 enum + E1", "DESIGN.md C14")
+check("C17", "model_checking",
+      "factory probed for all codes 0..255 and boundary 32-bit codes against the class File.h's include list assigns; every class "
+      "default-constructed into memory pre-filled with {00,ff,aa,55}: all reflected fields and the encoding identical, constructor "
+      "code maps back to the class, written and read back under that code",
+      ENUM_NOTE, "exhaustive enumeration", "E3 enum", "DESIGN.md C17")
+
 
 def main():
     props = [json.loads(l)["id"] for l in open(os.path.join(VERIF, "properties.jsonl"))]
